@@ -398,7 +398,7 @@ REGISTRY = {
     },
     "C02": {
         "corr": lambda tier, seed: corr_engine("C02", tier, seed, "restarts,batches,merges,bigvals", 120, 3000, ops=25,
-                                               dflags=NOEV, oracle_props=["C02"]),
+                                               dflags=NOEV, oracle_props=["C02", "C06"]),
         "assumptions": ["theorems are about the record-level engine model; the byte-level reader/writer round trip they rest on is C11",
                         "C02_restart_preserves_mapping_with_merges / C02_restart_from_any_reachable_state cover histories with merges (finished, abandoned, adopted) through the invariant G of C06; C02_close_open and C02_open_replays_log describe the merge-free mechanism",
                         "batch ids non-zero (snowflake ids are positive); file-system calls do not fail"],
